@@ -349,7 +349,17 @@ fn build(t: &mut Tape) -> (Program, bool, bool, &'static str) {
         }
         "undefined" => lines.push(vec![Stmt::Print(vec![PItem::Expr(E::Fn(Name::new("FNZ"), vec![lit(1)]))])]),
         "recursion" => {
-            lines.push(vec![Stmt::Def { name: Name::new("FNR"), params: vec![Name::new("X")], body: bin(Bin::Add, E::Fn(Name::new("FNR"), vec![v("X")]), lit(1)) }]);
+            // the recursive call in every position: under an operator, as the whole body (nothing is
+            // left to do after it returns), through a second function, with a string result
+            let fnr = |a: E| E::Fn(Name::new("FNR"), vec![a]);
+            let def = |name: &str, p: &str, body: E| Stmt::Def { name: Name::new(name), params: vec![Name::new(p)], body };
+            match g.t.below(5) {
+                0 => lines.push(vec![def("FNR", "X", bin(Bin::Add, fnr(v("X")), lit(1)))]),
+                1 => lines.push(vec![def("FNR", "X", fnr(if g.t.chance(1, 2) { v("X") } else { E::Neg(Box::new(v("X"))) }))]),
+                2 => lines.push(vec![def("FNR", "X", bin(Bin::Add, lit(1), fnr(v("X"))))]),
+                3 => lines.push(vec![def("FNR", "X", E::Fn(Name::new("FNS"), vec![v("X")])), def("FNS", "X", fnr(v("X")))]),
+                _ => lines.push(vec![def("FNR", "X", fnr(fnr(v("X"))))]),
+            }
             lines.push(vec![Stmt::Print(vec![PItem::Expr(E::Fn(Name::new("FNR"), vec![lit(1)]))])]);
         }
         _ => {}
